@@ -205,11 +205,13 @@ def gen_call_args(rng, callee_params, n_prev_items, own_params, allow_runtime=Tr
     return args, kwargs, runtime
 
 
-def gen_world(rng, nfun=None, allow=("call", "ref", "keep", "datafn"), max_tries=200):
-    """a random well-formed world (DESIGN §4 predicates hold by construction / by rejection)"""
+def gen_world(rng, nfun=None, allow=("call", "ref", "keep", "datafn"), max_tries=200, multi=False):
+    """a random well-formed world (DESIGN §4 predicates hold by construction / by rejection).
+    multi=True: functions may be invoked from several sites with different arguments (a path may then be
+    kept twice in one evaluation: dds must either reject the evaluation or get every value right)"""
     for _ in range(max_tries):
         w = _gen_world(rng, nfun, allow)
-        if w is not None and sites_ok(w) and kept_paths(w):
+        if w is not None and (sites_ok(w) != multi) and kept_paths(w):
             return w
     raise RuntimeError("generator could not produce a well-formed world")
 
